@@ -155,7 +155,20 @@ def member_extents(F, S):
     fn, rd0 = cands[0]
     reads = [rd0]
     site = final_site_facts(eng, fn, reads[0]["id"]) or set()
-    want = ("called", NS + "FileReader::Seek", (("mem", ("idx", ("mem", ("this",), "m_IndexEntries"), idx_t(fn)), "dataBlockOffset"),))
+    # (when the read sits in a helper, the helper's parameters stand for what GetSectionHeader hands it)
+    hsub = {}
+    if fn.key != fn0.key:
+        for cnd in fn0.nodes:
+            if cnd["k"] in CALLS and any(c_.key == fn.key for c_ in F.callees(cnd)):
+                for p_, a_ in zip(fn.params, cnd.get("args", [])):
+                    t_ = fn0.term(a_)
+                    for _ in range(4):
+                        t2_ = fn0.through_locals_at(t_, cnd["id"])
+                        if t2_ == t_:
+                            break
+                        t_ = t2_
+                    hsub[("var", p_["n"], p_["d"])] = t_
+    want = ("called", NS + "FileReader::Seek", (("mem", ("idx", ("mem", ("this",), "m_IndexEntries"), idx_t(fn0)), "dataBlockOffset"),))
     n += 1
     req = "an absolute Seek(m_IndexEntries[index].dataBlockOffset) dominates the block-header read"
     def _res(t):
@@ -165,7 +178,9 @@ def member_extents(F, S):
                 break
             t = t2
         return t
-    seek_ok = want in site or any(f[0] == "called" and f[1] == want[1] and len(f[2]) == 1 and _res(f[2][0]) == want[2][0] for f in site)
+    from ..flow import substitute as _subst
+    seek_ok = want in site or any(f[0] == "called" and f[1] == want[1] and len(f[2]) == 1 and
+                                  (_res(f[2][0]) == want[2][0] or (hsub and _subst(_res(f[2][0]), hsub) == want[2][0])) for f in site)
     if seek_ok:
         out.append(ok("R-MUSTCALL", VOL + "::GetSectionHeader#seek-first", fn.loc(reads[0]["id"]), fn.qn, req, "seek dominates read"))
     else:
